@@ -201,7 +201,7 @@ func (m *UDPMuxDefault) GetConn(ufrag string, addr net.Addr) (net.PacketConn, er
 		muxedConn = m.createMuxedConn(ufrag)
 		go func() {
 			<-muxedConn.CloseChannel()
-			m.RemoveConnByUfrag(ufrag)
+			m.removeClosedConn(ufrag, muxedConn)
 		}()
 
 		if isIPv6 {
@@ -242,11 +242,38 @@ func (m *UDPMuxDefault) RemoveConnByUfrag(ufrag string) {
 	}
 
 	m.addressMapMu.Lock()
-	defer m.addressMapMu.Unlock()
-
 	for _, c := range removedConns {
 		addresses := c.getAddresses()
 		for _, addr := range addresses {
+			delete(m.addressMap, addr)
+		}
+	}
+	m.addressMapMu.Unlock()
+
+	// Stop the removed connections: a removed connection must neither receive
+	// nor register new address bindings by writing.
+	for _, c := range removedConns {
+		_ = c.Close()
+	}
+}
+
+// removeClosedConn drops a closed muxed connection and its address bindings,
+// leaving a newer connection registered under the same ufrag untouched.
+func (m *UDPMuxDefault) removeClosedConn(ufrag string, conn *udpMuxedConn) {
+	m.mu.Lock()
+	if c, ok := m.connsIPv4[ufrag]; ok && c == conn {
+		delete(m.connsIPv4, ufrag)
+	}
+	if c, ok := m.connsIPv6[ufrag]; ok && c == conn {
+		delete(m.connsIPv6, ufrag)
+	}
+	m.mu.Unlock()
+
+	m.addressMapMu.Lock()
+	defer m.addressMapMu.Unlock()
+
+	for _, addr := range conn.getAddresses() {
+		if m.addressMap[addr] == conn {
 			delete(m.addressMap, addr)
 		}
 	}
